@@ -123,7 +123,7 @@ func (m ImportMatcher) matchSpec(spec *ast.ImportSpec, d data.Data) (_ data.Data
 			Unnamed: true,
 		})
 
-		d = data.WithValue(d, importKey(m.Path), importData{
+		d = data.WithValue(d, m.key(), importData{
 			Name:       m.NameS,
 			MetavarKey: importMetavarKey(m.NameS),
 		})
@@ -133,7 +133,7 @@ func (m ImportMatcher) matchSpec(spec *ast.ImportSpec, d data.Data) (_ data.Data
 			Name:    m.NameS,
 		}), d, nodeRegion(spec))
 	} else {
-		d = data.WithValue(d, importKey(m.Path), importData{Name: spec.Name.Name})
+		d = data.WithValue(d, m.key(), importData{Name: spec.Name.Name})
 
 		// Both are named. Match as-is and also associate the package
 		// name with the import path so that we can delete it later.
@@ -148,7 +148,11 @@ type importMetavarKey string
 
 type importMetavarData struct{ Unnamed bool }
 
-type importKey string // import path
+// importKey identifies an import of the "-" section: its name as written in
+// the patch and its path. A patch may list the same path under several names.
+type importKey string
+
+func (m ImportMatcher) key() importKey { return importKey(m.NameS + " " + m.Path) }
 
 type importData struct {
 	Name string // package name of the import
@@ -172,14 +176,14 @@ func (c *matcherCompiler) compileImports(imps []*ast.ImportSpec) ImportsMatcher 
 
 // Match matches a block of imports in a file.
 func (m ImportsMatcher) Match(file *ast.File, d data.Data) (_ data.Data, ok bool) {
-	matchedImports := make([]string, 0, len(m.Imports))
+	matchedImports := make([]matchedImport, 0, len(m.Imports))
 	for _, m := range m.Imports {
 		d, ok = m.Match(file, d)
 		if !ok {
 			return d, false
 		}
 
-		matchedImports = append(matchedImports, m.Path)
+		matchedImports = append(matchedImports, matchedImport{Path: m.Path, Key: m.key()})
 	}
 
 	return data.WithValue(d, importsKey, importsData{
@@ -192,7 +196,12 @@ type _importsKey string
 var importsKey _importsKey
 
 type importsData struct {
-	MatchedImports []string // import paths
+	MatchedImports []matchedImport
+}
+
+type matchedImport struct {
+	Path string
+	Key  importKey // where its importData is, if it was a named import
 }
 
 // ImportReplacer replaces imports in a file.
@@ -329,10 +338,11 @@ func (r ImportsReplacer) Cleanup(d data.Data, f *ast.File, newNames []string) er
 	}
 
 	// Delete matched imports that are no longer used.
-	for _, imp := range impData.MatchedImports {
+	for _, matched := range impData.MatchedImports {
 		var importName, pkgName string
+		imp := matched.Path
 
-		if idata := new(importData); data.Lookup(d, importKey(imp), idata) {
+		if idata := new(importData); data.Lookup(d, matched.Key, idata) {
 			pkgName = idata.Name
 			importName = idata.Name
 
